@@ -4,6 +4,7 @@
 (*   {"a":"Deliver","ms":[{item,t,v}..],"post":held}  one engine event        *)
 (*   {"a":"Touch","item":i,"post":held}   a cancel request recorded for i     *)
 (*   {"a":"Persist","post":held}          the state was stored and restored    *)
+(*   {"a":"Notice","item":i,"post":held}  a disconnect notice of i's link      *)
 EXTENDS Freshness, Json, IOUtils
 Log == ndJsonDeserialize(IOEnv.TRACE)
 VARIABLES l, bad
@@ -41,6 +42,13 @@ TTouch == /\ Log[l].a = "Touch"
           /\ last' = <<Msg(Log[l].item, -1, 0)>>
           /\ bad' = IF held' = held THEN bad ELSE Append(bad, <<l, {"touch"}>>)
 
+\* a disconnect notice of the link the item arrives on: the held exchange data must not change
+TNotice == /\ Log[l].a = "Notice"
+           /\ held' = NormH(Log[l].post)
+           /\ UNCHANGED delivered
+           /\ last' = <<Msg(Log[l].item, -3, 0)>>
+           /\ bad' = IF held' = held THEN bad ELSE Append(bad, <<l, {"notice"}>>)
+
 \* the spec's Persist: a stutter
 TPersist == /\ Log[l].a = "Persist"
             /\ held' = NormH(Log[l].post)
@@ -48,7 +56,7 @@ TPersist == /\ Log[l].a = "Persist"
             /\ last' = <<>>
             /\ bad' = IF held' = held THEN bad ELSE Append(bad, <<l, {"persist"}>>)
 
-TNext == l <= Len(Log) /\ l' = l + 1 /\ (TReset \/ TStep \/ TTouch \/ TPersist)
+TNext == l <= Len(Log) /\ l' = l + 1 /\ (TReset \/ TStep \/ TTouch \/ TNotice \/ TPersist)
 TSpec == TInit /\ [][TNext]_tvars
 Done == l = Len(Log) + 1 => PrintT(<<"TRACE_END", ToJson(bad)>>)
 Post == PrintT(<<"TRACE_DONE", TLCGet("stats").diameter, Len(Log)>>)
